@@ -1,6 +1,6 @@
 """Generators and line parsing shared by the server-level checks (C01, C03, C07, C08, C09)."""
 import random
-import dnsgen
+import dnsgen, qgen
 from dnsgen import u16, u32, enc_name, hx
 
 ZONE_NAMES = [[], [b"a"], [b"b", b"a"], [b"c", b"b", b"a"], [b"example"], [b"sub", b"example"], [b"Example"]]
@@ -258,8 +258,9 @@ def resp_equal(impl, model):
         if k == "AR":
             va = [canon_tsig_entry(x) for x in va]
         if k in ("AN", "NS", "AR"):
-            # owner names may have been compressed against an earlier name that differs in case
-            va, vb = [lower_owner(x) for x in va], [lower_owner(x) for x in vb]
+            # owner names (and, since the sections of answered queries are modelled: the compressible names inside
+            # RDATA) may have been compressed against an earlier name that differs in case
+            va, vb = [qgen.norm_rr(lower_owner(x)) for x in va], [qgen.norm_rr(lower_owner(x)) for x in vb]
         if va != vb:
             return False
     return not ("undecodable" in a["flags"] or "trailing" in a["flags"])
